@@ -1,1 +1,2 @@
 pub mod c05;
+pub mod swaps;
